@@ -107,7 +107,12 @@ func (i *Int) Add(lhs, rhs *Int) {
 // AddCap sets i = lhs + rhs with capacity capacity.
 // When capacity < 0, it is set to max(lhs.AnnouncedLen(), rhs.AnnouncedLen()) + 1.
 func (i *Int) AddCap(lhs, rhs *Int, capacity int) {
-	(*saferith.Int)(i).Add((*saferith.Int)(lhs), (*saferith.Int)(rhs), capacity)
+	// saferith's Int.Add builds its two's-complement operands inside the receiver's old limb
+	// buffer without clearing it, so limbs of a previous, longer value of i would leak into the
+	// sum; add into a fresh value instead.
+	var out saferith.Int
+	out.Add((*saferith.Int)(lhs), (*saferith.Int)(rhs), capacity)
+	*(*saferith.Int)(i) = out
 }
 
 // Neg sets i = -x.
